@@ -451,4 +451,158 @@ theorem U_idle_endHint (cfg : Cfg) (d : Disp (FullStH cfg)) (hp : d.pendingAux =
       rw [hce] at this
       exact this
 
+/-! ## assembly -/
+
+/-- **named hypothesis** (operation, protocol state) = (`handle_tag`, `startLex` / `auxPend` / `endLex`): the second half of
+the split event — on a valid tag lexeme of the hinted kind, at or above the watermark -/
+def X_postHint_tag (cfg : Cfg) : Prop :=
+  ∀ (inp : Bytes) (lx : TagLexeme) (d : Disp (FullStH cfg)), InvX cfg d → (d.gotFlagsFromHint || d.pendingAux) = true →
+    TagArgsOK inp lx → d.rcs ≤ lx.raw.start → (kindGuard (γ := FullSt cfg)).tag inp lx d = none →
+    UPost cfg (Disp.handleTag (fullCtlH cfg) inp lx d)
+
+/-- **named hypothesis** (`handle_non_tag_content`, `startLex` / `auxPend` / `endLex`): neutral -/
+def X_postHint_nonTag (cfg : Cfg) : Prop :=
+  ∀ (inp : Bytes) (lx : NonTagLexeme) (d : Disp (FullStH cfg)), InvX cfg d → (d.gotFlagsFromHint || d.pendingAux) = true →
+    NTLexValid inp lx → d.rcs ≤ lx.raw.start → UPost cfg (Disp.handleNonTag (fullCtlH cfg) inp lx d)
+
+theorem invX_idle_of {cfg : Cfg} {d : Disp (FullStH cfg)} (h : InvX cfg d) (hn : (d.gotFlagsFromHint || d.pendingAux) = false) :
+    d.pendingAux = false ∧ d.gotFlagsFromHint = false ∧ J2 cfg d.ctl.1.1 := by
+  simp only [Bool.or_eq_false_iff] at hn
+  cases h with
+  | idle hp hg hJ => exact ⟨hp, hg, hJ⟩
+  | startLex s ln ns f hJ ha hc hf hg hp hk => rw [hg] at hn; cases hn.1
+  | auxPend s ln ns hJ ha hc hg hp => rw [hp] at hn; cases hn.2
+  | endLex s ln hJ hc hg hp hk => rw [hg] at hn; cases hn.1
+
+theorem invX_flush {cfg : Cfg} {d d' : Disp (FullStH cfg)} (h : InvX cfg d) (hc : d'.ctl = d.ctl)
+    (hp' : d'.pendingAux = d.pendingAux) (hg' : d'.gotFlagsFromHint = d.gotFlagsFromHint) (hf' : d'.flags = d.flags) :
+    InvX cfg d' := by
+  cases h with
+  | idle hp hg hJ => exact .idle (by rw [hp', hp]) (by rw [hg', hg]) (by rw [hc]; exact hJ)
+  | startLex s ln ns f hJ ha hcc hf hg hp hk =>
+    exact .startLex s ln ns f hJ ha (by rw [hc]; exact hcc) (by rw [hf', hf]) (by rw [hg', hg]) (by rw [hp', hp]) (by rw [hc]; exact hk)
+  | auxPend s ln ns hJ ha hcc hg hp => exact .auxPend s ln ns hJ ha (by rw [hc]; exact hcc) (by rw [hg', hg]) (by rw [hp', hp])
+  | endLex s ln hJ hcc hg hp hk =>
+    exact .endLex s ln hJ (by rw [hc]; exact hcc) (by rw [hg', hg]) (by rw [hp', hp]) (by rw [hc]; exact hk)
+
+theorem invX_fault {cfg : Cfg} {d : Disp (FullStH cfg)} (h : InvX cfg d) : d.ctl.1.1.fault = none := by
+  cases h with
+  | idle hp hg hJ => exact hJ.1.fault
+  | startLex s ln ns f hJ ha hc hf hg hp hk => rw [hc.fault, Chunk.R.startTag_fault]; exact hJ.1.fault
+  | auxPend s ln ns hJ ha hc hg hp => rw [hc.fault, Chunk.R.startTag_fault]; exact hJ.1.fault
+  | endLex s ln hJ hc hg hp hk => rw [hc.fault]; exact endTag_fault_none cfg s hJ ln
+
+/-- **Full_scan_opsX_partial.** The operation-level statement with all four operations guarded, for the closed invariant
+`InvX`, from the two named hypotheses about the post-hint states. Proved here: all four operations from `idle`, the hint
+operations in the post-hint states (refused), every refused lexeme, `flush_remaining_input`, `handle_end`, the initial state. -/
+theorem Full_scan_opsX_partial (h1 : ∀ cfg, X_postHint_tag cfg) (h2 : ∀ cfg, X_postHint_nonTag cfg) :
+    Full_scan_opsX_statement InvX := by
+  intro cfg
+  refine ⟨fun enc => .idle rfl rfl (J2_init cfg), ?_⟩
+  have hsim := fullCtlH_sim cfg
+  have hcl := cleanCtlH_clean cfg
+  refine { ops := fun inp => ?_, bail := ?_, flush := ?_, handleEnd := ?_, initial := fun _ => rfl, np := fun e h => NP.np h }
+  · constructor
+    · -- handle_tag
+      rintro lx d _ ⟨rfl, hI⟩
+      simp only [guardHints, guardS]
+      cases hK : (withArgs argSite (andGuard kindGuard wmGuard)).tag inp lx d with
+      | some e => exact Or.inl ⟨⟨rfl, hI⟩, rfl⟩
+      | none =>
+        simp only [withArgs, andGuard] at hK
+        have hv : TagArgsOK inp lx := by
+          cases ha : (argGuard argSite).tag inp lx with
+          | some e => rw [ha] at hK; cases hK
+          | none => exact argGuard_tag_none ha
+        have ha : (argGuard argSite).tag inp lx = none := by
+          cases ha : (argGuard argSite).tag inp lx with
+          | some e => rw [ha] at hK; cases hK
+          | none => rfl
+        rw [ha] at hK
+        dsimp only at hK
+        have hkind : (kindGuard (γ := FullSt cfg)).tag inp lx d = none := by
+          cases hk : (kindGuard (γ := FullSt cfg)).tag inp lx d with
+          | some e => rw [hk] at hK; cases hK
+          | none => rfl
+        rw [hkind] at hK
+        dsimp only at hK
+        have hw : d.rcs ≤ lx.raw.start := by
+          simp only [wmGuard] at hK
+          split at hK
+          · assumption
+          · cases hK
+        have hu : UPost cfg (Disp.handleTag (fullCtlH cfg) inp lx d) := by
+          cases hb : (d.gotFlagsFromHint || d.pendingAux) with
+          | true => exact h1 cfg inp lx d hI hb hv hw hkind
+          | false =>
+            obtain ⟨a, b, c⟩ := invX_idle_of hI hb
+            exact U_idle_tag cfg d a b c inp lx hv
+        refine rel_of_unary (Chunk.R.handleTag_step hsim inp lx d (invX_DO hI)) hu (fun e he ho => ?_)
+        exact own_not_U2 ho ((handleTag_post hcl lx d hw hv.1.1.1 hv.1.1.2).2 e he) (handleTag_not hcl lx d hv.1.1 hv.1.2 e he)
+    · -- handle_non_tag_content
+      rintro lx d _ ⟨rfl, hI⟩
+      simp only [guardHints, guardS]
+      cases hK : (withArgs argSite (andGuard kindGuard wmGuard)).nonTag inp lx d with
+      | some e => exact Or.inl ⟨⟨rfl, hI⟩, rfl⟩
+      | none =>
+        simp only [withArgs, andGuard] at hK
+        have hv : NTLexValid inp lx := by
+          cases ha : (argGuard argSite).nonTag inp lx with
+          | some e => rw [ha] at hK; cases hK
+          | none =>
+            simp only [argGuard] at ha
+            split at ha
+            · assumption
+            · cases ha
+        have ha : (argGuard argSite).nonTag inp lx = none := by
+          cases ha : (argGuard argSite).nonTag inp lx with
+          | some e => rw [ha] at hK; cases hK
+          | none => rfl
+        rw [ha] at hK
+        simp only [kindGuard, wmGuard] at hK
+        have hw : d.rcs ≤ lx.raw.start := by
+          split at hK
+          · assumption
+          · cases hK
+        have hu : UPost cfg (Disp.handleNonTag (fullCtlH cfg) inp lx d) := by
+          cases hb : (d.gotFlagsFromHint || d.pendingAux) with
+          | true => exact h2 cfg inp lx d hI hb hv hw
+          | false =>
+            obtain ⟨a, b, c⟩ := invX_idle_of hI hb
+            exact U_idle_nonTag cfg d a b c inp lx
+        refine rel_of_unary (Chunk.R.handleNonTag_step hsim inp lx d (invX_DO hI)) hu (fun e he ho => ?_)
+        exact own_not_U2 ho ((handleNonTag_post hcl lx d hw hv.1.1 hv.1.2).2 e he) (handleNonTag_not hcl lx d hv.1 hv.2 e he)
+    · -- start-tag hint
+      rintro n ns d _ ⟨rfl, hI⟩
+      simp only [guardHints, guardS]
+      cases hb : (d.gotFlagsFromHint || d.pendingAux) with
+      | true => simp only [if_true]; exact Or.inl ⟨⟨rfl, hI⟩, trivial⟩
+      | false =>
+        simp only [Bool.false_eq_true, if_false]
+        obtain ⟨a, b, c⟩ := invX_idle_of hI hb
+        refine rel_of_unary (Chunk.R.startTagHint_step hsim n ns d (invX_DO hI)) (U_idle_startHint cfg d a b c n ns) (fun e he ho => ?_)
+        exact own_not_U2 ho ((startTagHint_post hcl n ns d).2 e he) (startTagHint_not hcl n ns d e he)
+    · -- end-tag hint
+      rintro n d _ ⟨rfl, hI⟩
+      simp only [guardHints, guardS]
+      cases hb : (d.gotFlagsFromHint || d.pendingAux) with
+      | true => simp only [if_true]; exact Or.inl ⟨⟨rfl, hI⟩, trivial⟩
+      | false =>
+        simp only [Bool.false_eq_true, if_false]
+        obtain ⟨a, b, c⟩ := invX_idle_of hI hb
+        refine rel_of_unary (Chunk.R.endTagHint_step hsim n d (invX_DO hI)) (U_idle_endHint cfg d a b c n) (fun e he ho => ?_)
+        exact own_not_U2 ho ((endTagHint_post hcl n d).2 e he) (endTagHint_not hcl n d e he)
+  · exact hsim.bailOut
+  · intro d d' inp k hf hI
+    obtain ⟨s1, s2, s3⟩ := flushRemaining_same hf
+    exact invX_flush hI (Chunk.R.flushRemaining_ctl hf) s1 s2 s3
+  · intro d hI
+    rcases hsim.handleEnd d.ctl (invX_DO hI) with ⟨he, _⟩ | ⟨e, ⟨hG, _⟩, he⟩
+    · exact Or.inl he
+    · have : e = .handler := Full_handleEnd_clean cfg d.ctl.1 (invX_fault hI) e he
+      subst this
+      rcases hG with ⟨m, hm, _⟩ | ⟨s, hs⟩
+      · cases hm
+      · cases hs
+
 end LolHtml.Thm.Full
